@@ -1,5 +1,5 @@
 (* Property C04 — statements only.  Every theorem is closed by [exact] of a lemma from
-   Proofs/Ring_proofs.v / Proofs/Replicas_proofs.v; the statements are pinned again in
+   Proofs/Ring_proofs.v / Proofs/Replicas_proofs.v / Proofs/C04_d4.v; the statements are pinned again in
    /verif/pins/C04.v.
 
    [g] is the global token ring as the locator stores it.  The only hypothesis on it is
@@ -8,7 +8,7 @@
    the FIRST position whose token is >= t (partition_point), "clockwise" is definite on such
    rings too — members sharing a token come in the ring's stable (insertion) order.
    [nts_keys_ok s]: an NTS map has one entry per datacenter (it is a HashMap). *)
-From SV Require Import Base.Prelude Model.Tablets Model.TabletSets Proofs.TabletSets_proofs Model.Ring Model.Shard Model.Replicas Proofs.Ring_proofs Proofs.Replicas_proofs.
+From SV Require Import Base.Prelude Model.Tablets Model.TabletSets Proofs.TabletSets_proofs Model.Ring Model.Shard Model.Replicas Proofs.Ring_proofs Proofs.Replicas_proofs Proofs.C04_d4.
 From Coq Require Import Permutation Sorted.
 Open Scope Z_scope.
 
@@ -280,9 +280,9 @@ Theorem C04_views_tablets : forall (s : tset) k,
   ts_ordered s = ts_iter s.
 Proof. exact (fun s k => conj (ts_len_iter s) (conj (ts_nth_iter s k) (conj (ts_choose_iter s k) eq_refl))). Qed.
 
-Theorem C04_views_tablets_ops : forall (s : tset) ops idx, (idx <= List.length s)%nat ->
+Theorem C04_views_tablets_ops : forall (s : tset) ops idx,
   ts_run s ops idx = plist_run ops (skipn idx (ts_iter s)).
-Proof. exact ts_run_spec. Qed.
+Proof. exact ts_run_spec_any. Qed.
 
 Theorem C04_tablets_dc_filter : forall hist s k tok d,
   Forall op_i64 hist -> run hist = Some s ->
@@ -433,6 +433,72 @@ Example C04_ex_dup :
   get_simple dup_ring [] 5 1 = simple_replicas dup_ring 5 1 /\ simple_replicas dup_ring 10 2 = [1; 2]%N.
 Proof. repeat split; vm_compute; reflexivity. Qed.
 
+(* ---- deepening round 4 -------------------------------------------------------------------- *)
+(* [tokens_distinct] decides in the driver whether a ring has entries sharing a token (then the
+   placement / ring-order predicates are tried for every order of those entries): it holds exactly
+   for sorted rings with no token twice, and such a ring has ONE stored order — every sorted
+   arrangement of the same entries is the ring itself, so no variant is left out *)
+Theorem C04_tokens_distinct_sound : forall (g : ring N),
+  (tokens_distinct g = true <-> sorted_weak g /\ NoDup (map fst g)) /\
+  (tokens_distinct g = true -> forall g', Permutation g' g -> sorted_weak g' -> g' = g).
+Proof. exact (fun g => conj (tokens_distinct_spec g) (fun H g' => tokens_distinct_one_order g g' H)). Qed.
+
+(* the list helpers the driver also uses outside the four predicates (agreement test, capped
+   shared-token judgement): what each decides *)
+Theorem C04_helpers_sound :
+  (forall x l, mem x l = true <-> In x l) /\
+  (forall l, nodupb l = true <-> NoDup l) /\
+  (forall a b, subset a b = true <-> (forall x, In x a -> In x b)) /\
+  (forall a b, list_eqb a b = true <-> a = b) /\
+  (forall a b, same_set a b = true <-> NoDup a /\ NoDup b /\ (forall x, In x a <-> In x b)).
+Proof. exact helpers_spec. Qed.
+
+(* every reported replica owns a token of the ring, and lives in the datacenter asked for *)
+Theorem C04_replicas_own_tokens : forall dcf rackf (g : ring N) pre t s dc x,
+  sorted_weak g ->
+  In x (rs_iter dcf rackf g pre t (replicas_for dcf rackf g pre t s dc)) ->
+  In x (map snd g) /\ match dc with Some d => in_dc dcf d x = true | None => True end.
+Proof. exact replicas_own_tokens. Qed.
+
+(* SimpleStrategy: as many replicas as asked for, up to the number of nodes (C04_nts_len is the
+   NTS counterpart) *)
+Theorem C04_simple_len : forall (g : ring N) t rf,
+  List.length (simple_replicas g t rf) = Nat.min rf (List.length (unique_nodes g)).
+Proof. exact simple_len. Qed.
+
+(* the number of replicas does not depend on the order in which the ring stores entries sharing
+   a token (nor on the precomputation) — for every answer except a SimpleStrategy / Local answer
+   restricted to a datacenter (C04_ex_count_order shows that exception is real).  This is what the
+   driver's judgement of rings with more than 720 shared-token orders relies on. *)
+Theorem C04_count_order_independent : forall dcf rackf (g g' : ring N) pre pre' t s dc,
+  sorted_weak g -> sorted_weak g' -> Permutation g g' -> nts_keys_ok s ->
+  dc = None \/ (exists m, s = NTS m) ->
+  List.length (rs_iter dcf rackf g pre t (replicas_for dcf rackf g pre t s dc)) =
+  List.length (rs_iter dcf rackf g' pre' t (replicas_for dcf rackf g' pre' t s dc)).
+Proof. exact count_order_independent. Qed.
+
+Example C04_ex_tokens_distinct :
+  tokens_distinct ex_g = true /\ tokens_distinct dup_ring = false /\
+  tokens_distinct [(20, 1%N); (10, 2%N)] = false.            (* distinct tokens, not sorted *)
+Proof. repeat split; vm_compute; reflexivity. Qed.
+
+(* the F18 ring in its two stored orders: other replicas, the same number; restricted to a
+   datacenter a SimpleStrategy answer has 1 or 0 replicas depending on the order *)
+Example C04_ex_count_order :
+  let g := dup_ring in let g' := [(10, 2%N); (10, 1%N); (20, 3%N)] in
+  let it := fun g s dc => rs_iter dup_dcf (fun _ => None) g [] 5 (replicas_for dup_dcf (fun _ => None) g [] 5 s dc) in
+  Permutation g g' /\ sorted_weak g /\ sorted_weak g' /\
+  it g (Simple 1) None = [1%N] /\ it g' (Simple 1) None = [2%N] /\
+  it g (NTS [(1%N, 1%nat); (2%N, 1%nat)]) None = [1; 2]%N /\ it g' (NTS [(1%N, 1%nat); (2%N, 1%nat)]) None = [2; 1]%N /\
+  it g (Simple 1) (Some 1%N) = [1%N] /\ it g' (Simple 1) (Some 1%N) = [] /\
+  forallb (fun x => mem x (map snd ex_g) && in_dc ex_dcf 2 x)
+          (rs_iter ex_dcf ex_rackf ex_g [] 160 (replicas_for ex_dcf ex_rackf ex_g [] 160 (Simple 5) (Some 2%N))) = true /\
+  List.length (rs_iter ex_dcf ex_rackf ex_g [] 160 (replicas_for ex_dcf ex_rackf ex_g [] 160 (Simple 5) (Some 2%N))) = 2%nat.
+Proof.
+  cbv zeta. split; [apply perm_swap|]. split; [cbn; lia|]. split; [cbn; lia|].
+  repeat split; vm_compute; reflexivity.
+Qed.
+
 Print Assumptions C04_ring.
 Print Assumptions C04_ring_range.
 Print Assumptions C04_simple.
@@ -471,3 +537,8 @@ Print Assumptions C04_placement_sound.
 Print Assumptions C04_ordered_ok_sound.
 Print Assumptions C04_placement_model.
 Print Assumptions C04_ordered_model.
+Print Assumptions C04_tokens_distinct_sound.
+Print Assumptions C04_helpers_sound.
+Print Assumptions C04_replicas_own_tokens.
+Print Assumptions C04_simple_len.
+Print Assumptions C04_count_order_independent.
